@@ -1,6 +1,7 @@
 package graph
 
 import (
+	"fmt"
 	"context"
 	"errors"
 	"sort"
@@ -199,7 +200,7 @@ func (w *world) Resolve(pt, pid, field string, args map[string]any) ref.Out {
 		default:
 			o, _ = w.fault(c, 3)
 		}
-	case "User.secret", "User.echo", "User.calc":
+	case "User.secret", "User.echo", "User.calc", "User.patch":
 		c := w.pick(key, 2+w.nf())
 		switch c {
 		case 0:
@@ -704,6 +705,104 @@ func (r *userResolver) Calc(ctx context.Context, obj *User, f *Filter, xs []int,
 	r.w.args = append(r.w.args, a)
 	r.w.mu.Unlock()
 	return r.str(obj, "calc")
+}
+
+func renderPatch(p *Patch) string {
+	if p == nil {
+		return "nil"
+	}
+	s := "{note:"
+	switch v, set := p.Note.ValueOK(); {
+	case !set:
+		s += "unset"
+	case v == nil:
+		s += "null"
+	default:
+		s += *v
+	}
+	s += " count:"
+	switch v, set := p.Count.ValueOK(); {
+	case !set:
+		s += "unset"
+	case v == nil:
+		s += "null"
+	default:
+		s += strconv.Itoa(*v)
+	}
+	s += " tags:"
+	switch v, set := p.Tags.ValueOK(); {
+	case !set:
+		s += "unset"
+	case v == nil:
+		s += "null"
+	default:
+		s += "[" + strings.Join(v, ",") + "]"
+	}
+	s += " sub:"
+	switch v, set := p.Sub.ValueOK(); {
+	case !set:
+		s += "unset"
+	case v == nil:
+		s += "null"
+	default:
+		s += renderPatch(v)
+	}
+	return s + "}"
+}
+
+func renderBag(b map[string]any) string {
+	if b == nil {
+		return "nil"
+	}
+	var ks []string
+	for k := range b {
+		ks = append(ks, k)
+	}
+	sort.Strings(ks)
+	s := "{"
+	for i, k := range ks {
+		if i > 0 {
+			s += " "
+		}
+		s += k + ":"
+		switch v := b[k].(type) {
+		case nil:
+			s += "null"
+		case map[string]any:
+			if v == nil {
+				s += "null"
+			} else {
+				s += renderBag(v)
+			}
+		case *int:
+			if v == nil {
+				s += "null"
+			} else {
+				s += strconv.Itoa(*v)
+			}
+		case int:
+			s += strconv.Itoa(v)
+		case *string:
+			if v == nil {
+				s += "null"
+			} else {
+				s += *v
+			}
+		case string:
+			s += v
+		default:
+			s += fmt.Sprintf("?%T", v)
+		}
+	}
+	return s + "}"
+}
+
+// Patch records what the binder handed over for the Omittable-backed and the map-backed input.
+func (r *userResolver) Patch(ctx context.Context, obj *User, p *Patch, b map[string]any) (*string, error) {
+	r.w.mu.Lock()
+	r.w.args = append(r.w.args, "p="+renderPatch(p)+" b="+renderBag(b))
+	r.w.mu.Unlock()
+	return r.str(obj, "patch")
 }
 
 type itemResolver struct{ w *world }
